@@ -13,9 +13,19 @@ def main():
     resf = V / "seeded" / "RESULTS.json"
     res = json.loads(resf.read_text()) if resf.exists() else {}
     for name in names:
-        d = V / "seeded" / name
-        meta = json.loads((d / "meta.json").read_text())
+        if "/" in name:                       # a staging directory like /tmp/seed-C06-out/1
+            d = Path(name)
+            m = re.search(r"seed-(C\d+)-out/(\d+)", name)
+            name = f"{m.group(1)}-{m.group(2)}"
+        else:
+            d = V / "seeded" / name
+        try:
+            meta = json.loads((d / "meta.json").read_text())
+        except Exception:
+            meta = {}
         pid = meta.get("property") or name.split("-")[0]
+        if not re.fullmatch(r"C\d\d", str(pid)):
+            pid = name.split("-")[0]
         wt = Path(f"/var/tmp/wt-seedtest-{name}")
         sh(["git", "-C", "/repo", "worktree", "remove", "--force", str(wt)])
         sh(["git", "-C", "/repo", "worktree", "add", "-q", "--detach", str(wt), "HEAD"])
